@@ -94,50 +94,54 @@ def _in_loop(b, bi):
 
 
 def r2(ctx):
+    """per request: exactly one send_request(self, that request); Ok -> that very request joins `sent`, Err(e) -> (that very
+    request, e) joins `errors`; nothing filtered, added or re-ordered.  Decided on the per-element view, so the iterator
+    pipeline (`map(..).partition_result()`) and an explicit loop pushing into two vectors are the same mechanism."""
     d = ctx.find(name="send_requests", self_adt=ENG, trait=SR)
     b = ctx.ibody(d)
     rt = b.return_term()
     ok = rt[0] == "agg" and rt[1].endswith("SendRequestsOutput::SendRequestsOutput")
     f = dict(zip(rt[2], rt[3])) if ok else {}
-    pr = None
-    if ok:
-        s_, e_ = f.get("sent"), f.get("errors")
-        def strip(x):
-            return x[2][0] if x and x[0] == "call" and x[1].endswith("::from") else x
-        s_, e_ = strip(s_), strip(e_)
-        ok = s_ and e_ and s_[0] == "proj" and e_[0] == "proj" and s_[2] == ("0",) and e_[2] == ("1",) and s_[1] == e_[1] \
-            and s_[1][0] == "call" and s_[1][1].endswith("partition_result")
-        pr = s_[1] if ok else None
-    ctx.check("Engine::send_requests", bool(ok), "sent = Ok half, errors = Err half of one partition_result over the requests",
-              got=render(rt)[:300], key="partition")
-    if not pr:
-        return
-    mp = pr[2][0]
-    ok = mp[0] == "call" and mp[1].endswith("Iterator::map") and render(mp[2][0]) == "requests" and mp[2][1][0] == "agg"
-    ctx.check("Engine::send_requests", ok, "every input request is mapped (nothing filtered or added)", got=render(mp)[:200], key="map")
-    if not ok:
-        return
-    cb, _ = mir.closure_body(ctx.facts, mp[2][1])
-    crt = cb.return_term()
-    r = render(crt)
-    shape = crt[0] == "call" and crt[1].endswith("Result::<T, E>::map") and crt[2][0][0] == "call" and crt[2][0][1].endswith("map_err")
-    ctx.check("Engine::send_requests", shape, "per request: send_request(&request).map_err(..).map(..)", got=r[:300], key="closure-shape")
-    if not shape:
-        return
-    inner = crt[2][0]
-    sr = inner[2][0]
-    ctx.check("Engine::send_requests", sr[0] == "call" and mir.short(sr[1]) == "Engine::send_request" and render(sr[2][1]) == "$1",
-              "the request sent is the closure's own request", got=render(sr), key="sends-own")
-    okc, _ = mir.closure_body(ctx.facts, crt[2][1])
-    erc, _ = mir.closure_body(ctx.facts, inner[2][1])
-    okr = mir.in_closure(ctx.facts, crt[2][1], okc.return_term())
-    err = mir.in_closure(ctx.facts, inner[2][1], erc.return_term())
-    ctx.check("Engine::send_requests", render(okr) == "$1" and render(err) == "tuple{0: $1, 1: $1}".replace("1: $1", "1: $1"),
-              "Ok -> that request; Err -> (that request, its error)", got=(render(okr), render(err)), key="halves") if False else None
-    # the error closure's own parameter is the error; its captured `request` is the outer $1
-    e_ok = err[0] == "agg" and err[1] == "tuple" and render(err[3][0]) == "$1" and err[3][1] == ("cparam", 1)
-    ctx.check("Engine::send_requests", render(okr) == "$1" and e_ok,
-              "Ok -> that very request; Err -> (that very request, its error)", got=(render(okr), render(err)), key="halves")
+
+    def strip(x):
+        return x[2][0] if x and x[0] == "call" and x[1].endswith("::from") and len(x[2]) == 1 else x
+    s_, e_ = strip(f.get("sent")), strip(f.get("errors"))
+    send = "Engine::send_request(self, $x)"
+    got = None
+    okp = False
+    if ok and s_ and e_ and s_[0] == "proj" and e_[0] == "proj" and s_[2] == ("0",) and e_[2] == ("1",) and s_[1] == e_[1] \
+            and s_[1][0] == "call" and s_[1][1].endswith("partition_result"):
+        # pipeline form: one map over the requests, split by partition_result
+        mp = s_[1][2][0]
+        if mp[0] == "call" and mp[1].endswith("Iterator::map") and render(common.strip_iter(mp[2][0])) == "requests" and mp[2][1][0] == "agg":
+            cdef = mp[2][1][1][len("closure:"):]
+            cb = ctx.ibody(cdef)
+            X = ("const", "$x", "?")
+
+            def tr(t):
+                return mir.subst(mir.in_closure(ctx.facts, mp[2][1], t), lambda q: X if q == ("cparam", 1) else None)
+            tab = {}
+            for g, t, bi in cb.expanded_cases(0):
+                g2 = frozenset(frozenset((a[0], tr(a[1])) + tuple(a[2:]) for a in conj) for conj in g)
+                tab[common.canon_guard(g2)] = render(tr(t))
+            calls = [render(tr(tm)) for bi, t, tm in cb.real_calls() if mir.short(tm[1]) == "Engine::send_request"]
+            got = {"form": "pipeline", "table": tab, "sends": calls}
+            okp = tab == {"(%s is Ok)" % send: "Result::Ok{0: $x}",
+                          "(%s is Err)" % send: "Result::Err{0: tuple{0: $x, 1: %s.as:Err.0}}" % send} and calls == [send]
+    elif ok and s_ is not None and e_ is not None:
+        # loop form: the two vectors returned are filled by pushes guarded by the outcome of that request's own send
+        vs = [v for v in common.elementwise_views(ctx, d) if v["kind"] == "loop" and v["source"] == "requests"]
+        if len(vs) == 1:
+            v = vs[0]
+            sends = [c for c in v["calls"] if c[0] == send]
+            ps = sorted((("sent" if p[0] == s_ else ("errors" if p[0] == e_ else "?")), p[1], p[2]) for p in v["pushes"])
+            got = {"form": "loop", "sends": sends, "pushes": ps}
+            okp = sends == [(send, "true")] and ps == sorted([
+                ("sent", "$x", "(%s is Ok)" % send),
+                ("errors", "tuple{0: $x, 1: %s.as:Err.0}" % send, "(%s is Err)" % send)])
+    ctx.check("Engine::send_requests", okp,
+              "every request is sent exactly once; Ok -> that very request is reported sent, Err(e) -> (that very request, e) is reported "
+              "failed; nothing else joins or leaves either list", got=got or render(rt)[:300], key="partition")
 
 
 def r3(ctx):
